@@ -237,12 +237,68 @@ fn tpe_views(req: &J) -> J {
     })
 }
 
+/// apply a sequence of edit operations to a cedar_policy::PolicySet; after each one report Ok/Err and the observable state
+fn policyset_ops(req: &J) -> J {
+    use cedar_policy::{EntityUid, Policy, PolicyId, SlotId, Template};
+    use std::collections::HashMap;
+    let mut ps = PolicySet::new();
+    let mut steps = vec![];
+    for op in req["ops"].as_array().cloned().unwrap_or_default() {
+        let kind = op["op"].as_str().unwrap_or("");
+        let id = op["id"].as_str().unwrap_or("").to_string();
+        let pid = || PolicyId::new(id.clone());
+        let res: Result<(), String> = match kind {
+            "add_static" => Policy::parse(Some(pid()), "permit(principal, action, resource);")
+                .map_err(|e| e.to_string())
+                .and_then(|p| ps.add(p).map_err(|e| e.to_string())),
+            "add_template" => Template::parse(Some(pid()), "permit(principal == ?principal, action, resource);")
+                .map_err(|e| e.to_string())
+                .and_then(|t| ps.add_template(t).map_err(|e| e.to_string())),
+            "link" => {
+                let tid = PolicyId::new(op["template"].as_str().unwrap_or(""));
+                let mut vals = HashMap::new();
+                if op["bind"].as_bool().unwrap_or(true) {
+                    vals.insert(SlotId::principal(), EntityUid::from_str(r#"User::"alice""#).unwrap());
+                }
+                ps.link(tid, pid(), vals).map_err(|e| e.to_string())
+            }
+            "unlink" => ps.unlink(pid()).map(|_| ()).map_err(|e| e.to_string()),
+            "remove_static" => ps.remove_static(pid()).map(|_| ()).map_err(|e| e.to_string()),
+            "remove_template" => ps.remove_template(pid()).map(|_| ()).map_err(|e| e.to_string()),
+            other => Err(format!("unknown op {other}")),
+        };
+        let mut policies: Vec<String> = ps
+            .policies()
+            .map(|p| format!("{}<-{}", p.id(), p.template_id().map(|t| t.to_string()).unwrap_or_else(|| "static".into())))
+            .collect();
+        policies.sort();
+        let mut templates: Vec<String> = ps.templates().map(|t| t.id().to_string()).collect();
+        templates.sort();
+        let mut links = serde_json::Map::new();
+        for t in &templates {
+            let mut l: Vec<String> = match ps.get_linked_policies(PolicyId::new(t.clone())) {
+                Ok(it) => it.map(|p| p.to_string()).collect(),
+                Err(_) => vec!["<error>".into()],
+            };
+            l.sort();
+            links.insert(t.clone(), json!(l));
+        }
+        // what authorization considers: every policy is a permit that is satisfied by the basic request when its scope matches
+        let resp = Authorizer::new().is_authorized(&basic_request(), &ps, &Entities::empty());
+        let mut reasons: Vec<String> = resp.diagnostics().reason().map(|p| p.to_string()).collect();
+        reasons.sort();
+        steps.push(json!({"ok": res.is_ok(), "err": res.err(), "policies": policies, "templates": templates, "links": links, "reasons": reasons}));
+    }
+    json!({"steps": steps})
+}
+
 fn handle(req: &J) -> J {
     match req["op"].as_str().unwrap_or("") {
         "eval" => eval(req),
         "authorize" => authorize(req),
         "authorize_partial" => authorize_partial(req),
         "tpe_views" => tpe_views(req),
+        "policyset_ops" => policyset_ops(req),
         other => json!({"unknown_op": other}),
     }
 }
